@@ -18,9 +18,6 @@ def classify(case, kind):
     k = case.get("kind")
     if kind != "prop":
         return cls
-    if k == "writer" and case.get("uses_unmapped_file_index"):
-        # write_for on a node whose file maps to usize::MAX in the file-index mapper
-        cls.add("unmapped-file-index-becomes-source-minus-one")
     if k == "project":
         for c in case.get("failure_hints", []):
             cls.add(c)
